@@ -62,10 +62,11 @@ def obligations(tier, seed):
     rnd = random.Random("c02/%s" % seed)
     tpl = [(k, st) for k, st in corpus.build(tier, seed) if st.kind not in ("bare", "drop", "delete", "truncate", "drop_view", "insert_values")]
     budget = 5 if tier == "quick" else 6
-    tabs = [PairOb(k, st, "ansi", "tabs", budget, seed) for k, st in tpl]
-    cols = [PairOb(k, st, "ansi", "cols", budget, seed) for k, st in tpl]
+    _b = lambda k: min(budget, 4) if k.startswith("rand/") else budget     # depth-4 random compositions carry many slots
+    tabs = [PairOb(k, st, "ansi", "tabs", _b(k), seed) for k, st in tpl]
+    cols = [PairOb(k, st, "ansi", "cols", _b(k), seed) for k, st in tpl]
     # third family: statement-local names (derived aliases, CTE names, table aliases) first - coincidences BETWEEN scopes
-    locs = [PairOb(k, st, "ansi", "locals", budget, seed) for k, st in tpl
+    locs = [PairOb(k, st, "ansi", "locals", _b(k), seed) for k, st in tpl
             if sum(1 for m in set(__import__("re").findall(r"zq[adc]\d+", __import__("checks.gen", fromlist=["x"]).Renderer().stmt(st)))) >= 2]
     if tier == "quick":
         def pick(obs):
